@@ -119,6 +119,8 @@ pub(crate) fn handle_unseen_canon(
 
     if exec_ctx.run_parameters.current_peer_id.as_str() != peer_id {
         exec_ctx.make_subgraph_incomplete();
+        #[cfg(feature = "verif_probes")]
+        air_log_targets::probe::hit("unseen_canon", peer_id.clone());
         exec_ctx.next_peer_pks.push(peer_id);
 
         let canon_result = CanonResult::request_sent_by(exec_ctx.run_parameters.current_peer_id.clone());
